@@ -72,21 +72,27 @@ Theorem C20_protocols : forall cd,
      M cd K (p_defaults tid cd c) r) /\
   (* dump hook cache + hook scan over a snapshot: every run-time type of the value *)
   (forall o v K c r, cont_ok cd K c r -> M cd K (p_value o v c) r) /\
-  (* lookups.environ: Env.load_environ() *)
-  (forall tid K c r, (forall K', incl K K' -> In (T_ENVIRON, 0) K' -> M cd K' c r) -> M cd K (p_load_environ tid false c) r) /\
+  (* lookups.environ, first load: Env.load_environ() builds a complete dict, then binds the global to it *)
+  (forall fx tid K c r, (forall K', incl K K' -> In (T_ENVIRON, 0) K' -> M cd K' c r) -> M cd K (p_load_environ fx tid false c) r) /\
+  (* lookups.environ, forced reload, REBIND protocol only (`environ = os.environ.copy()`): NOT for an in-place refill *)
+  (forall fx tid K c r, env_inplace fx = false -> In (T_ENVIRON, 0) K ->
+     (forall K', incl K K' -> In (T_ENVIRON, 0) K' -> M cd K' c r) -> M cd K (p_load_environ fx tid true c) r) /\
+  (* environ[key] / set(environ) through the reference: the dict behind it is complete *)
+  (forall K c r, In (T_ENVIRON, 0) K -> cont_ok cd K c r -> M cd K (p_env_get c) r) /\
   (* Env.var_names (cached class property) read after environ is loaded *)
   (forall oid K c r, In (T_ENVIRON, 0) K -> (forall K', incl K K' -> M cd K' (c 1) r) -> M cd K (p_member oid c) r) /\
   (* Env.cleaned_to_env (cached class property) *)
   (forall tid K c r, In (T_ENVIRON, 0) K ->
      (forall a K', incl K K' -> In (T_OBJ, a) K' -> M cd K' (c a) r) -> M cd K (p_cleaned tid c) r) /\
-  (* Env.reload(): load, var_names, forced reload, in-place updates of the cached set / dict *)
-  (forall tid K c r, (forall K', incl K K' -> In (T_ENVIRON, 0) K' -> M cd K' c r) -> M cd K (p_reload tid c) r).
+  (* Env.reload() (REBIND protocol): load, var_names, forced reload, monotone in-place updates of the cached set / dict *)
+  (forall fx tid K c r, env_inplace fx = false ->
+     (forall K', incl K K' -> In (T_ENVIRON, 0) K' -> M cd K' c r) -> M cd K (p_reload fx tid c) r).
 Proof.
   intro cd. repeat split.
   - exact (M_p_fields cd). - exact (M_p_loader cd). - exact (M_p_dumper cd). - exact (M_p_load_cfg cd).
   - exact (M_p_dump_cfg cd). - exact (M_p_setattr cd). - exact (M_key_loop cd). - exact (M_p_defaults cd).
-  - exact (M_p_value cd). - exact (M_p_load_environ cd). - exact (M_p_member cd). - exact (M_p_cleaned cd).
-  - exact (M_p_reload cd).
+  - exact (M_p_value cd). - exact (M_p_load_environ cd). - exact (M_p_load_environ_force cd).
+  - exact (M_p_env_get cd). - exact (M_p_member cd). - exact (M_p_cleaned cd). - exact (M_p_reload cd).
 Qed.
 Print Assumptions C20_protocols.
 
@@ -104,7 +110,10 @@ Theorem C20_dump_plain :
 Proof. exact dump_plain. Qed.
 Print Assumptions C20_dump_plain.
 
-Theorem C20_env_plain : forall cd tid reload K, M cd K (call_env tid reload) [OSeq].
+(* EnvWizard.__init__ is memo-shaped when Env.load_environ REBINDS `environ` to a complete fresh copy
+   (the current tree).  It does NOT apply to an in-place refill of the shared dict (see 6d). *)
+Theorem C20_env_plain : forall cd fx tid reload K,
+  env_inplace fx = false -> M cd K (call_env fx tid reload) [OSeq].
 Proof. exact env_plain. Qed.
 Print Assumptions C20_env_plain.
 
@@ -113,14 +122,14 @@ Proof. exact v1_catchall_plain. Qed.
 Print Assumptions C20_v1_catchall_plain.
 
 (* 5. C20 on the safe region: any number of threads, each any list of load / dump /
-      EnvWizard() (with or without _reload) / v1-catch-all-load calls, on a class without
-      JSON-path fields - under EVERY schedule every finished thread returned the sequential
+      EnvWizard() (with or without _reload; Env.load_environ rebinding `environ`, as the current
+      tree does) / v1-catch-all-load calls, on a class without JSON-path fields - under EVERY schedule every finished thread returned the sequential
       result of each of its calls.
       MISSING for the full property: classes with JSON-path fields (refuted below, F31);
       the v1 engine beyond the catch-all protocol. *)
 Theorem C20_partial :
   forall (cd : cdesc) (fx : fixes) (pss : list (list call)),
-    Forall (Forall (safe_call cd)) pss ->
+    Forall (Forall (safe_call cd fx)) pss ->
     forall (sched : list nat) (i : nat) (t : thread) (os : list outcome),
       nth_error (snd (run sched (scenario fx cd pss))) i = Some t ->
       finished t = Some os ->
@@ -132,7 +141,7 @@ Print Assumptions C20_partial.
    reloading EnvWizard, the v1 catch-all load: three threads, seven calls *)
 Example C20_partial_nonvacuous :
   let cd := mkC [mkF false false; mkF true false; mkF true false] true true false in
-  Forall (Forall (safe_call cd))
+  Forall (Forall (safe_call cd no_fixes))
     [[CLoad [KCamel 0; KExact 1; KUnknown 0]; CDump [VTSub 0 16; VTBase 0; VTOther 2]; CV1Load];
      [CDump [VTBase 1; VTSub 1 0; VTBase 1]; CLoad [KExact 0]; CEnv true];
      [CEnv false]].
@@ -186,6 +195,20 @@ Theorem C20_former_witnesses_sequential :
   replay_on seg_env_reload cfg_env_reload = [Some [OSeq]; Some [OSeq]].
 Proof. vm_compute. repeat split. Qed.
 Print Assumptions C20_former_witnesses_sequential.
+
+(* 6d. REBIND versus IN-PLACE.  If Env.load_environ(force_reload) refilled the shared `environ`
+       dict in place (`environ.clear(); environ.update(os.environ)`) instead of rebinding the global
+       to a complete copy, C20 would be violated: a plain EnvWizard() that has passed
+       `name in Env.var_names` indexes the transiently empty dict -> KeyError, which neither
+       sequential order gives.  (Not the current tree: the harness detects the protocol shape from
+       the source and switches the model; a randomized real-thread search looks for the failing run.) *)
+Theorem C20_refuted_env_inplace :
+  exists sched,
+    outcomes (run sched cfg_env_inplace) = [Some [OErr EKeyError]; Some [OSeq]] /\
+    outcomes (run sequential2 cfg_env_inplace) = [Some [OSeq]; Some [OSeq]] /\
+    outcomes (run sequential2' cfg_env_inplace) = [Some [OSeq]; Some [OSeq]].
+Proof. exists (repeat 1 13 ++ repeat 0 100 ++ repeat 1 100). vm_compute. repeat split. Qed.
+Print Assumptions C20_refuted_env_inplace.
 
 (* 7. Tie T: the default dump-hook table (iteration order of the hook scan) regenerated from
       the source is the documented one; the positions the examples use are those of dict / str. *)
